@@ -823,6 +823,17 @@ func (ex *Exec) globalCell(st *State, name string, t types.Type) *Cell {
 							ex.Assumes = append(ex.Assumes, Eq(iv.Kind, IntC(0)))
 						} else {
 							ex.Assumes = append(ex.Assumes, Neq(iv.Kind, IntC(0)))
+							// the dynamic type too, when the dump names a type of the loaded program ("nonnil:pkg.Type")
+							// (only a type of the global's own package: %T prints the package name, not its path)
+							if tn := strings.TrimPrefix(cv, "nonnil:"); tn != cv && !strings.HasPrefix(tn, "*") {
+								pkgPath := name[:strings.LastIndex(name, ".")]
+								base := pkgPath[strings.LastIndex(pkgPath, "/")+1:]
+								if d := strings.Index(tn, "."); d > 0 && tn[:d] == base {
+									if dt := ex.P.LookupType(pkgPath+"."+tn[d+1:], nil); dt != nil {
+										ex.Assumes = append(ex.Assumes, Eq(iv.Kind, IntC(int64(ex.P.TypeTag(dt)))))
+									}
+								}
+							}
 						}
 					}
 				}
